@@ -20,6 +20,7 @@ func runC02(p *core.Prog, r *core.Result) {
 		"R2.3 loading a target rewrites the record it has just read with every decision-relevant field (all but the documentation) unchanged, field by field over the record type: a load cannot drop the stamp dependents compare",
 		"R2.6 the verdict 'a dependency is out of date' is produced only where a dependency has no recorded stamp, changed in this build, or has a stamp different from the recorded one - nowhere else (no comparison of counts, no extra condition merged in after the loop)",
 		"R2.11 a target's own verdict (Target.upToDate()) is taken behind the evaluation of its dependencies: a generated source file, whose dependency is its generator, is hashed only after the generator ran in this build (otherwise its record carries the sum of the previous contents and the rebuild of the unchanged tree re-executes its consumers)",
+		"R2.12 a content sum is a function of names and contents: nothing fed into the hash of a source (fileSum, dirSum and what they call) is computed from a modification time or another attribute that changes without the contents (fs.FormatFileInfo, FileInfo.ModTime / Sys, package time) - otherwise a timestamp-only touch, a same-content rewrite or a scratch file created and removed below a source directory re-executes the consumers",
 		"R2.7 the stamp a loaded target reports to its dependents (targetInfo.stamp) is a persisted field of its record, verbatim (the combined stamp, or the plain data of a record written before combined stamps existed) - never a value recomputed at load, which differs from what dependents stored whenever the formula or the record format has changed since",
 		"R2.5 the current environment of a function (functionEnv) is not computed from anything reachable from loadFunction: it is taken only after every module has finished executing, so it is complete",
 		"R2.8 what a function's stamp is computed from is fixed when loading ends: a host value whose contents are written while targets run (a cache) is neither pickled by content by the encoder nor read by the host pickler - otherwise the stamp recorded by one build differs from the one the next, unchanged, build computes before anything ran (shared with C08 R8.8)",
@@ -70,35 +71,14 @@ func runC02(p *core.Prog, r *core.Result) {
 	checkRuntimeStateNotPickledByContent(p, r, "R2.8")
 
 	// ---- R2.5 the current environment is computed when the target is checked, not while modules are still loading
-	if fe, lf := p.Func("", "", "functionEnv"), p.Func("", "Project", "loadFunction"); fe != nil && lf != nil {
-		roots := []*ssa.Function{lf}
-		if fl := p.Func("", "function", "load"); fl != nil {
-			roots = append(roots, fl)
-		}
-		reach := staticClosure(p, roots...)
-		if reach[fe] {
-			// name the path's first hop for the report
-			via := ""
-			for f := range reach {
-				for _, c := range core.Calls(f) {
-					if core.Callee(c) == fe {
-						via = fname(f)
-					}
-				}
-			}
-			r.Bad("R2.5", "dawn.functionEnv#not-during-load", p.Pos(fe.Pos()), "the current environment of a target function is computed (in %s) from code reachable from loadFunction, i.e. while the defining module is still executing: globals assigned later in the module are missing from it (ModuleEnv skips unset globals), whereas the environment stored after a run is complete - every later load then sees a difference and rebuilds an unchanged tree", via)
-		} else {
-			r.OK("R2.5", "dawn.functionEnv#not-during-load", p.Pos(fe.Pos()), "not reachable from loadFunction / (*function).load (%d functions): the current environment is taken when the target is checked, after all modules have loaded", len(reach))
-		}
-	} else {
-		r.Unk("R2.5", "anchor:dawn.functionEnv/loadFunction", "-", "not found")
-	}
+	checkEnvNotDuringLoad(p, r, "R2.5", "whereas the environment stored after a run is complete: every later load then sees a difference and rebuilds an unchanged tree")
 
 	// ---- R2.6 dependencies are declared out of date only for a reason
 	checkStalenessHasReason(p, r)
 
 	// ---- R2.11 the own verdict is taken behind the dependencies
 	checkVerdictAfterDependencies(p, r, "R2.11")
+	checkSumsIgnoreTimes(p, r, "R2.12")
 
 	// ---- R2.3
 	checkLoadRewritesRead(p, r, "R2.3")
